@@ -13,6 +13,8 @@
 (* holds it ("none" on edges that are not struct fields) and s the child   *)
 (* shape.  Uniform records keep TLC's value comparison well defined.       *)
 (*     str                 a string (the only leaf: the canary carrier)    *)
+(*     time                a time.Time struct field (no canary; only as a  *)
+(*                         sibling before or after another field)          *)
 (*     struct(f1 .. fn)    exported fields, each tagged none | secure      *)
 (*     ptr(s) slice(s) map(s) iface(s) array(s)                            *)
 (*                         *T, []T, map[string]T, any holding a T, [2]T    *)
@@ -62,6 +64,9 @@ vars == <<c>>
 (* Part 1: shapes                                                       *)
 
 Leaf == [k |-> "str", f |-> <<>>]
+\* a time.Time field: carries no canary and nothing to scrub, but clone.Secure treats it specially ("don't mess with
+\* time.Time") - whatever stands next to it in the struct must be treated as if it were not there
+TimeLeaf == [k |-> "time", f |-> <<>>]
 Edge(t, s) == [t |-> t, s |-> s]
 Wrap(k, s) == [k |-> k, f |-> <<Edge("none", s)>>]
 Wrappers == {"ptr", "slice", "map", "iface", "array"}
@@ -75,7 +80,9 @@ FieldLists(sub) ==
     { <<Edge(t, s)>> : t \in Tags, s \in sub }
     \cup (IF ~Wide THEN {} ELSE
           { <<Edge(t1, Leaf), Edge(t2, s)>> : t1 \in Tags, t2 \in Tags, s \in sub }
-          \cup { <<Edge(t1, s), Edge(t2, Leaf)>> : t1 \in Tags, t2 \in Tags, s \in sub })
+          \cup { <<Edge(t1, s), Edge(t2, Leaf)>> : t1 \in Tags, t2 \in Tags, s \in sub }
+          \cup { <<Edge("none", TimeLeaf), Edge(t2, s)>> : t2 \in Tags, s \in sub }
+          \cup { <<Edge(t1, s), Edge("none", TimeLeaf)>> : t1 \in Tags, s \in sub })
 Structs(sub) == { [k |-> "struct", f |-> fl] : fl \in FieldLists(sub) }
 
 RECURSIVE Shapes(_)
@@ -92,7 +99,8 @@ Roots(d) == { s \in Shapes(d) : IsStruct(s) \/ (s.k = "ptr" /\ IsStruct(s.f[1].s
 (* leaves in depth-first field order; gov/arr accumulate along the path *)
 RECURSIVE Leaves(_, _, _, _)
 Leaves(s, path, gov, arr) ==
-    IF s.k = "str"
+    IF s.k = "time" THEN <<>>
+    ELSE IF s.k = "str"
     THEN << [p |-> path, governed |-> gov, mustScrub |-> gov /\ ~arr, mustKeep |-> ~gov] >>
     ELSE LET arr2 == arr \/ s.k = "array"
              sub(i) == Leaves(s.f[i].s, Append(path, i), gov \/ (s.k = "struct" /\ s.f[i].t = "secure"), arr2)
